@@ -117,7 +117,7 @@ def rule_apply_window(chk: Check, model: Model, rid: str):
         ok2 = iw[0] == "obj" and iw[1] == "IndexedWindow" and all(f.get(k) == T.mk_attr(neww, k) for k in ("seq", "ts_sent", "ts_recv"))
         chk.add(rid, "indexed window carries the pushed window", ok2, f"IndexedWindow = {T.show(iw)[:200]}", chk.loc(f_sb))
         want_si = T.mk_ite(T.eq(S("edge.seq_out"), T.const(-1), numeric=True), T.const(-1), S("edge.seq_in"))
-        chk.add(rid, "seq_in of an unsent message is -1", f.get("seq_in") == want_si, f"seq_in = {T.show(f.get('seq_in', T.NONE))[:120]}, expected where(seq_out == -1, -1, seq_in)", chk.loc(f_sb))
+        chk.add(rid, "seq_in of an unsent message is -1", T.where_to_ite(f.get("seq_in", T.NONE)) == want_si, f"seq_in = {T.show(f.get('seq_in', T.NONE))[:120]}, expected where(seq_out == -1, -1, seq_in)", chk.loc(f_sb))
     else:
         chk.unknown(rid, "scan body", f"_scan_body returns {T.show(out)[:160]}", chk.loc(f_sb))
     # IndexedWindow.to_window
@@ -163,7 +163,7 @@ def rule_apply_window(chk: Check, model: Model, rid: str):
     ok = False
     detail = "cannot analyse _get_window_index"
     if rets:
-        t = rets[-1].term
+        t = T.where_to_ite(rets[-1].term)
         argw = [x for x in T.walk(t) if x[0] == "call" and T.call_name(x) == "jax.numpy.argwhere"]
         argw = [a for a in argw if any(y[0] == "call" and T.call_name(y) == "jax.numpy.flip" and y[2][0][0] == "ite" for y in T.walk(a))] or argw
         if argw:
